@@ -7,6 +7,7 @@ require (
 	github.com/markusmobius/go-domdistiller v0.0.0
 	github.com/sirupsen/logrus v1.9.0
 	golang.org/x/net v0.10.0
+	golang.org/x/text v0.9.0
 	verifsim.local/simrt v0.0.0
 )
 
